@@ -334,7 +334,7 @@ def _finish(pid, hname, h, tier, seed, results, real, t0, limits):
             if n_gaps > 24:
                 break
             rr0 = real.map([dict(harness=hname, cfg=r['cfg'], values=g['values'], want_obs=False)])[0]
-            if rr0['failed'] and not rr0['error'] and not rr0['assume_violated']:
+            if rr0['failed'] and not rr0['error']:
                 vreqs.append(dict(harness=hname, cfg=r['cfg'], values=g['values'], want_obs=True))
                 vmeta.append((r['cfg'], dict(label=rr0['failed'][0], values=g['values'], detail='found through a model-gap witness: ' + g['msg'])))
             else:
@@ -348,7 +348,9 @@ def _finish(pid, hname, h, tier, seed, results, real, t0, limits):
             os.remove(os.path.join(ROOT, 'replays', f))
     for (cfg, v), rr in zip(vmeta, vres):
         label = v['label']
-        reproduced = (label in rr['failed']) and not rr['error'] and not rr['assume_violated']
+        # labels recorded before a later precondition / missing-variable stop are legitimate: all earlier
+        # preconditions held when they were recorded
+        reproduced = (label in rr['failed']) and not rr['error']
         if not reproduced:
             not_repro.append(dict(cfg=cfg, label=label, values=v['values'], real_failed=rr['failed'],
                                   real_error=rr['error'], assume=rr['assume_violated']))
